@@ -4,6 +4,8 @@ import (
 	"fmt"
 	"strings"
 
+	"github.com/uhn/ggql/pkg/ggql"
+
 	"verif/internal/extract"
 	"verif/internal/gen"
 	"verif/internal/model"
@@ -57,6 +59,21 @@ func runC13(c *run.Ctx) {
 			continue
 		}
 		c.Count("accepted_schemas_rechecked", 1)
+		// a well-formed document stays well-formed when it arrives on top of an accepted schema: every load validates the whole
+		// root again, so what the earlier load left behind (coerced defaults, resolved references) must pass a second time
+		for li, later := range []string{"type ZzLater0 { a: Int }", "input ZzLater1 { a: Int = 1, b: [ZzLater1!] }\n\nenum ZzLater2 { A B }", "scalar ZzLater3"} {
+			var lerr error
+			if li == 2 {
+				lerr = root.AddTypes(&ggql.Scalar{Base: ggql.Base{N: "ZzLater3"}})
+			} else {
+				lerr = root.ParseString(later)
+			}
+			c.Count("wellformed_later_loads", 1)
+			if lerr != nil {
+				c.Violation("c13-wellformed-later-load-rejected", map[string]interface{}{"sdl": sdl, "later_load": later, "step": li + 2, "error": lerr.Error()})
+				break
+			}
+		}
 		if i < 1 {
 			c.Sample(map[string]interface{}{"wellformed_sdl": clip(sdl, 1200)})
 		}
